@@ -557,6 +557,50 @@ func runStore(c *ctx) error {
 					}
 				}
 				// an InvalidArgument rejection (all-zero key etc.) is fine: nothing may be left behind, the audit checks that
+			case 20, 21: // update device through the service implementation: every field that is present is stored
+				e := pick()
+				d, ok := o.devs[e]
+				if !ok {
+					continue
+				}
+				up := int32([]int{0, 0, 1, 65535, r.Intn(65536)}[r.Intn(5)])
+				dn := int32([]int{0, 0, 1, 65535, r.Intn(65536)}[r.Intn(5)])
+				addr := addrs[r.Intn(len(addrs))]
+				kw := r.Intn(2) == 0
+				req := &lospan.Device{Eui: strp(e.String())}
+				what := ""
+				if r.Intn(3) != 0 {
+					req.FrameCountUp = &up
+					d.FCntUp = uint16(up)
+					what += fmt.Sprintf(" up=%d", up)
+				}
+				if r.Intn(3) != 0 {
+					req.FrameCountDown = &dn
+					d.FCntDn = uint16(dn)
+					what += fmt.Sprintf(" dn=%d", dn)
+				}
+				if r.Intn(3) == 0 {
+					req.DevAddr = &addr
+					d.DevAddr = protocol.DevAddrFromUint32(addr)
+					what += fmt.Sprintf(" addr=%08x", addr)
+				}
+				if r.Intn(3) == 0 {
+					req.KeyWarning = &kw
+					d.KeyWarning = kw
+					what += fmt.Sprintf(" warn=%v", kw)
+				}
+				resp, err := s.api.UpdateDevice(context.Background(), req)
+				s.op("api.UpdateDevice(%s%s)=%v", e, what, err)
+				if err != nil {
+					s.fail("api-update", "the service refused an update of an existing device with valid values", err.Error(), "nil")
+				} else {
+					if uint16(resp.GetFrameCountUp()) != d.FCntUp || uint16(resp.GetFrameCountDown()) != d.FCntDn || resp.GetDevAddr() != d.DevAddr.ToUint32() || resp.GetKeyWarning() != d.KeyWarning {
+						s.fail("api-update-answer", "the service's answer to an update does not carry the values it was given",
+							fmt.Sprintf("up=%d dn=%d addr=%08x warn=%v", resp.GetFrameCountUp(), resp.GetFrameCountDown(), resp.GetDevAddr(), resp.GetKeyWarning()),
+							fmt.Sprintf("up=%d dn=%d addr=%08x warn=%v", d.FCntUp, d.FCntDn, d.DevAddr.ToUint32(), d.KeyWarning))
+					}
+					o.devs[e] = d
+				}
 			case 10: // update device
 				e := pick()
 				d, ok := o.devs[e]
